@@ -16,10 +16,22 @@
     - [fields_spec raw size l] (Proofs/Registers.v): every declared field [(name, offset)] with
       its range [(offset, sz)] from [field_ranges] and the value [bits offset sz raw];
     - [contiguous start rs stop] (Proofs/Registers.v): the first range of [rs] starts at [start],
-      each next one starts where the previous ended, the last one ends at [stop]. *)
+      each next one starts where the previous ended, the last one ends at [stop];
+    - slice level (Model/RegisterHeap.v): [heap] = one byte array per allocation, address =
+      position; [op] = [OpFields reg raw] (a [Fields()] call) | [OpKeyFields key]
+      ([TXTPublicKey.Fields()]) | [OpWrite g bytes] (a consumer overwrites the [g]-th byte slice
+      that was ever handed out); [state] = heap + addresses of the values handed out so far;
+      [step]/[run]: heap semantics, an operation reports the new fields as they read right
+      after the call ([ofield] = name, offset, size, bytes of [Value], address); [final s]: how
+      every handed-out value reads in [s]; [vstep]/[vrun]: the same session over independent
+      values (no memory); [number_from base fs]: the fields [fs] with the little-endian 8-byte
+      encoding [le_bytes 8] of their values, numbered from [base]; [wf_state] (Proofs/
+      RegisterHeap.v): the handed-out addresses are pairwise distinct and inside the heap;
+    - [origin], [allocfn], [oblig_fresh] (Lib/RegFresh.v): the summary tools/go2coq extracts for
+      the functions that build these results and the obligation evaluated on it in every run. *)
 From Coq Require Import NArith String List.
-From CSS Require Import Lib.SymBits Lib.RegTypes Lib.RegOblig Model.Registers.
-From CSS Require Import Proofs.SymBits Proofs.Registers.
+From CSS Require Import Lib.SymBits Lib.RegTypes Lib.RegOblig Lib.RegFresh Model.Registers Model.RegisterHeap.
+From CSS Require Import Proofs.SymBits Proofs.Registers Proofs.RegisterHeap.
 Import ListNotations.
 Open Scope N_scope.
 
@@ -177,3 +189,70 @@ Theorem C04_read_le_none : forall img off n,
   read_le img off n = None <-> (length img < off + n)%nat.
 Proof. exact read_le_none. Qed.
 Print Assumptions C04_read_le_none.
+
+(** * 5. Results are fresh values: sequences of calls and writes into returned byte slices *)
+
+(** In EVERY state — whatever was decoded before and whatever a consumer wrote into the byte
+    slices it was handed — [Fields()] of a register with a well-formed table returns the
+    declared fields, each value the 8 little-endian bytes of bits [offset, offset+size) of ITS
+    raw value ([fields_spec], cf. [C04_fields_exact]), each in a newly allocated array. *)
+Theorem C04_fields_in_any_state : forall tabs s r raw t,
+  find_table r tabs = Some t -> table_wf t = true ->
+  exists s', step tabs s (OpFields r raw) =
+             Some (number_from (length (s_heap s)) (fields_spec raw (t_bits t) (t_fields t)), s').
+Proof. exact fields_any_state. Qed.
+Print Assumptions C04_fields_in_any_state.
+
+(** A whole session — calls for any registers and values interleaved with any writes into any
+    of the slices handed out — is indistinguishable from the session over independent values:
+    same fields reported after every call, same final contents.  No write through one result
+    is ever visible through another result or in a later result.  ([None]: an operation names
+    an unknown register type or a value index that was not handed out; then both fail.) *)
+Theorem C04_session_refines_values : forall tabs ops s, wf_state s ->
+  match run tabs s ops with
+  | Some (obs, s') =>
+      vrun tabs (final s) (length (s_heap s)) ops = Some (obs, final s') /\ wf_state s'
+  | None => vrun tabs (final s) (length (s_heap s)) ops = None
+  end.
+Proof. exact session_refines. Qed.
+Print Assumptions C04_session_refines_values.
+
+(** From the start of the process: additionally all byte slices handed out during the session
+    occupy pairwise distinct arrays. *)
+Theorem C04_session_values_distinct : forall tabs ops obs s',
+  run tabs empty_state ops = Some (obs, s') ->
+  vrun tabs [] 0 ops = Some (obs, final s') /\ NoDup (s_vals s').
+Proof. exact session_from_empty. Qed.
+Print Assumptions C04_session_values_distinct.
+
+(** The frame properties spelled out. *)
+Theorem C04_write_changes_only_its_target : forall tabs s g bytes ob s', wf_state s ->
+  step tabs s (OpWrite g bytes) = Some (ob, s') ->
+  length (final s') = length (final s) /\
+  forall g', g' <> g -> nth g' (final s') [] = nth g' (final s) [].
+Proof. exact write_only_target. Qed.
+Print Assumptions C04_write_changes_only_its_target.
+
+Theorem C04_fields_call_keeps_earlier_results : forall tabs s r raw ob s', wf_state s ->
+  step tabs s (OpFields r raw) = Some (ob, s') ->
+  exists new, final s' = final s ++ new /\ length new = length ob.
+Proof. exact fields_keep_earlier. Qed.
+Print Assumptions C04_fields_call_keeps_earlier_results.
+
+(** [FieldValueToNumber(NumberToFieldValue(v)) = v] for every uint64. *)
+Theorem C04_field_value_roundtrip : forall v, v < 2 ^ 64 -> le_value (le_bytes 8 v) = v.
+Proof. exact field_value_roundtrip. Qed.
+Print Assumptions C04_field_value_roundtrip.
+
+(** A green freshness obligation: the function exists in the source; every slice it returns
+    or stores into what it returns is allocated by the call, nil, or the result of another
+    function of the checked list; it reads no package-level variable (beyond the stateless
+    selectors [ext]). *)
+Theorem C04_fresh_obligation_sound : forall ext fns gen n,
+  snd (fst (oblig_fresh ext fns gen n)) = true ->
+  exists f, find_allocfn n gen = Some f /\
+            (forall o, In o (f_results f) ->
+               (exists w, o = OFresh w) \/ o = ONil \/ (exists g, o = OCall g /\ smem g fns = true)) /\
+            (forall g, In g (f_globals f) -> smem g ext = true).
+Proof. exact fresh_obligation_sound. Qed.
+Print Assumptions C04_fresh_obligation_sound.
